@@ -103,3 +103,10 @@ func verifRunReplay(entry func()) (failed []string, panicked any) {
 	entry()
 	return
 }
+
+func verifIteString(c bool, a, b string) string {
+	if c {
+		return a
+	}
+	return b
+}
